@@ -22,7 +22,7 @@ func init() {
 		ID: "C01", Fn: runC01,
 		Rule: "one case = (world or scripted mock handler, stream/storage fault, delivery plan, call history): histories interleave Read and RawRecord (RawRecord before any Read, 0-3 after each Read, 3-20 further calls of both kinds after the first terminal result) and are checked call by call against an executable model of the protocol {Init, Ok, Failed, Terminal(e)}. Non-trivial = the history contains a RawRecord call in a non-Ok state or a call after a terminal result; distinct = distinct (world hash, plan+fault signature, history signature).",
 		Real: commonReal, Simulated: commonSim,
-		Stub: []string{"for the 'caller-supplied handler' part only: a scripted mock SchemaHandler/Ingester registered through Extension.CreateSchemaHandler (the Transform under test is the real one)"},
+		Stub:   []string{"for the 'caller-supplied handler' part only: a scripted mock SchemaHandler/Ingester registered through Extension.CreateSchemaHandler (the Transform under test is the real one)"},
 		Assume: []string{"mock ingesters return a non-nil raw record and valid JSON with every success (that is the handler's side of the contract)"},
 	})
 }
@@ -300,7 +300,7 @@ type mockStep struct {
 type mockRaw struct{ id int }
 
 func (r *mockRaw) Raw() interface{} { return r.id }
-func (r *mockRaw) Checksum() string  { return fmt.Sprintf("mock-%d", r.id) }
+func (r *mockRaw) Checksum() string { return fmt.Sprintf("mock-%d", r.id) }
 
 type mockIngester struct {
 	steps []mockStep
